@@ -62,7 +62,7 @@ ASSUMPTIONS = [
     "problems whose stored trajectory constraints are constants (not re-addable through Problem.add_trajectory_constraint) are degenerate inputs",
 ]
 SHARD_TIMEOUT = {"quick": 600, "thorough": 3000}
-N_CASES = {"quick": 360, "thorough": 6400}
+N_CASES = {"quick": 360, "thorough": 25600}
 N_SHARDS = {"quick": 5, "thorough": 14}  # (the work of the quick tier is ~10 CPU-s; every extra shard costs ~2.5 CPU-s of imports)
 
 
